@@ -316,6 +316,52 @@ def run_obligations(obs, nproc=None, progress=True):
 
 
 # --------------------------------------------------------------------------------------------- findings
+def call_with_timeout(fn, seconds):
+    """run fn() in a forked child; returns its (picklable) result, or None on timeout/crash.  For replays whose honest
+    run time on a correct tree is unbounded-ish (jitted loops do not see signals)."""
+    import pickle
+    import select
+    r, w = os.pipe()
+    pid = os.fork()
+    if pid == 0:
+        try:
+            os.close(r)
+            data = pickle.dumps(fn())
+            with os.fdopen(w, "wb") as fh:
+                fh.write(data)
+        except BaseException:
+            pass
+        finally:
+            os._exit(0)
+    os.close(w)
+    buf = b""
+    end = time.time() + seconds
+    with os.fdopen(r, "rb") as fh:
+        while True:
+            left = end - time.time()
+            if left <= 0:
+                break
+            ready, _, _ = select.select([fh], [], [], min(left, 1.0))
+            if ready:
+                chunk = fh.read()
+                buf += chunk
+                break
+    try:
+        os.kill(pid, 9)
+    except OSError:
+        pass
+    try:
+        os.waitpid(pid, 0)
+    except OSError:
+        pass
+    if not buf:
+        return None
+    try:
+        return pickle.loads(buf)
+    except Exception:
+        return None
+
+
 def load_known_findings():
     p = os.path.join(ROOT, "known_findings.json")
     if not os.path.exists(p):
